@@ -4,7 +4,7 @@ with workers that await director-owned futures.
 
 Schedule (all symbolic integers):  perm  - order in which the director resolves the N worker futures (index into the
 N! permutations, decoded by comparisons);  out[j] - 0: the j-th resolved future gets its value, 1: it gets an
-exception;  drain[j] - how many loop ticks run after the j-th resolution before the next one (0: none, so two
+exception;  drain[j] (j < N-1) - how many loop ticks run after the j-th resolution before the next one (0: none, so two
 resolutions land in the same tick; 1: until quiescent; 2: exactly one tick);  val[i] - worker i's result value (symbolic, never
 branched on).  After the schedule everything is drained and the gather call must have returned.
 
@@ -19,7 +19,7 @@ loader.install()
 import hailtop.utils.utils as U  # noqa: E402
 
 MODES = ('ret', 'raise', 'cancel', 'online')
-FULL = 12   # ticks that reach quiescence for <= 4 workers (measured need: 8)
+CAP = 40    # upper bound on ticks spent reaching quiescence
 
 A_BOUND, A_BOUND1, A_CONTRACT, A_PENDING, A_PERMITS, A_PERMITS1, A_RETURNS = (1 << i for i in range(7))
 ASPECTS = {
@@ -33,12 +33,31 @@ ASPECTS = {
 }
 
 
-class DetLoop(asyncio.SelectorEventLoop):
-    """CrossHair makes time.* symbolic, which the stock loop cannot digest; nothing here uses timers."""
-    _t = 0.0
+class _NullSelector:
+    def select(self, timeout=None):
+        return []
+
+    def close(self):
+        pass
+
+
+class DetLoop(asyncio.BaseEventLoop):
+    """The real asyncio scheduling core (BaseEventLoop: call_soon, _run_once, Task/Future wake-ups) without the
+    selector/self-pipe I/O layer and with a constant clock: CrossHair makes time.* symbolic, which the stock loop
+    cannot digest, and creating sockets per explored path is slow.  Nothing in the code under test uses timers or I/O."""
+
+    def __init__(self):
+        super().__init__()
+        self._selector = _NullSelector()
 
     def time(self):
-        return self._t
+        return 0.0
+
+    def _process_events(self, event_list):
+        pass
+
+    def _write_to_self(self):
+        pass
 
 
 class Boom(Exception):
@@ -62,6 +81,15 @@ def decode_perm(n, perm):
 async def _ticks(k):
     for _ in range(k):
         await asyncio.sleep(0)
+
+
+async def _quiesce():
+    """run ready callbacks until the director is the only runnable thing (bounded by CAP ticks)"""
+    loop = asyncio.get_running_loop()
+    for _ in range(CAP):
+        await asyncio.sleep(0)
+        if not loop._ready:
+            return
 
 
 async def _director(mode, holder, P, n, order, outs, drains, vals):
@@ -131,7 +159,7 @@ async def _director(mode, holder, P, n, order, outs, drains, vals):
                 sema.release()
 
     G = asyncio.ensure_future(call())
-    await _ticks(FULL)
+    await _quiesce()
     for j in range(n):
         i = order[j]
         if not futs[i].done():   # a cancelled worker cancels the future it awaits
@@ -139,11 +167,12 @@ async def _director(mode, holder, P, n, order, outs, drains, vals):
                 futs[i].set_result(vals[i])
             else:
                 futs[i].set_exception(excs[i])
-        if drains[j] == 1:
-            await _ticks(FULL)
-        elif drains[j] >= 2:
-            await _ticks(1)
-    await _ticks(FULL)
+        if j < n - 1:   # after the last resolution everything is drained anyway
+            if drains[j] == 1:
+                await _quiesce()
+            elif drains[j] >= 2:
+                await _ticks(1)
+    await _quiesce()
 
     # ---- oracle -----------------------------------------------------------------------------------
     mask = 0
@@ -154,7 +183,7 @@ async def _director(mode, holder, P, n, order, outs, drains, vals):
     if not G.done():
         mask |= A_RETURNS
         G.cancel()
-        await _ticks(FULL)
+        await _quiesce()
         return mask, st, None
     gexc = None if G.cancelled() else G.exception()
     res = None if (G.cancelled() or gexc is not None) else G.result()
@@ -193,7 +222,7 @@ async def _director(mode, holder, P, n, order, outs, drains, vals):
             t.cancel()
     if pend_now:
         mask |= A_RETURNS   # all futures are resolved: nothing may still be pending now
-        await _ticks(FULL)
+        await _quiesce()
     if sema._value != P:
         mask |= A_PERMITS
     if not (P - 1 <= sema._value <= P + 1):
